@@ -1046,3 +1046,48 @@ func init() {
 		return c1
 	}
 }
+
+func init() {
+	// strings.Contains / strings.HasSuffix with a concrete needle over a string of bounded length
+	stubs["strings.Contains"] = func(e *Exec, fn *ssa.Function, args []Value) Value {
+		sv := strView(args[0].(Str))
+		sub, ok := strView(args[1].(Str)).concrete()
+		if !ok {
+			panic(engineErr("strings.Contains with a non-constant substring"))
+		}
+		if cs, isC := sv.concrete(); isC {
+			return smt.BoolConst(strings.Contains(cs, sub))
+		}
+		if sub == "" {
+			return smt.True
+		}
+		M, okM := e.feasibleMax(sv.Len)
+		if !okM {
+			panic(engineErr("strings.Contains on a string of unbounded length"))
+		}
+		var alts []*smt.Term
+		for i := 0; i+len(sub) <= M; i++ {
+			cs := []*smt.Term{smt.ULe(c64(i+len(sub)), sv.Len)}
+			for k := 0; k < len(sub); k++ {
+				cs = append(cs, smt.Eq(sv.at(c64(i+k)), smt.Const(uint64(sub[k]), 8)))
+			}
+			alts = append(alts, smt.And(cs...))
+		}
+		return smt.Or(alts...)
+	}
+	stubs["strings.HasSuffix"] = func(e *Exec, fn *ssa.Function, args []Value) Value {
+		sv := strView(args[0].(Str))
+		sub, ok := strView(args[1].(Str)).concrete()
+		if !ok {
+			panic(engineErr("strings.HasSuffix with a non-constant suffix"))
+		}
+		if cs, isC := sv.concrete(); isC {
+			return smt.BoolConst(strings.HasSuffix(cs, sub))
+		}
+		cs := []*smt.Term{smt.ULe(c64(len(sub)), sv.Len)}
+		for k := 0; k < len(sub); k++ {
+			cs = append(cs, smt.Eq(sv.at(smt.Add(smt.Sub(sv.Len, c64(len(sub))), c64(k))), smt.Const(uint64(sub[k]), 8)))
+		}
+		return smt.And(cs...)
+	}
+}
